@@ -489,6 +489,61 @@ def _start_part(ck, tier):
                              site=f"{cname}.__init__:start")
 
 
+def _tiny_bounds_start_part(ck, tier):
+    """limits of very small absolute size (1e-12): a start hundreds of interval widths outside is refused, or never recorded outside"""
+    from inference.mcmc import HamiltonianChain, PcaChain
+    lo, hi = np.array([1e-12, 1e-12]), np.array([3e-12, 3e-12])
+    post = lambda x: -0.5 * float(np.sum((np.asarray(x, dtype=float) - 2e-12) ** 2)) * 1e24
+    grad = lambda x: -(np.asarray(x, dtype=float) - 2e-12) * 1e24
+    for cname, mk in (("PcaChain", lambda st: PcaChain(posterior=post, start=st, widths=np.array([1e-12, 1e-12]), bounds=(lo, hi), display_progress=False)),
+                      ("HamiltonianChain", lambda st: HamiltonianChain(posterior=post, grad=grad, start=st, epsilon=1e-13, bounds=(lo, hi), display_progress=False))):
+        st = np.array([5e-10, 2e-12])
+        ck.case(("tiny-start", cname))
+        try:
+            ch = mk(st.copy())
+        except ValueError:
+            continue
+        except Exception as ex:
+            ck.violation("sampler raised an unexpected error for a start outside tiny bounds", {"class": cname, "error": repr(ex)[:200]}, site=f"{cname}.__init__")
+            continue
+        smp = np.asarray(ch.get_sample(burn=0), dtype=float)
+        worst = max(_ulps_excess(float(v), float(a), float(b)) for row in smp for v, a, b in zip(row, lo, hi))
+        if worst > 4:
+            ck.violation("a start outside the bounds was accepted and recorded outside them", {"class": cname, "bounds": [lo.tolist(), hi.tolist()], "start": st.tolist()},
+                         site=f"{cname}.__init__:start")
+
+
+def _fresh_reload_part(ck, tier):
+    """limits given at construction stay in force for a sampler that is saved BEFORE its first step, reloaded and then advanced
+    (the posterior peaks outside the box, so unconstrained moves would leave it)"""
+    import tempfile, io, contextlib
+    from inference.mcmc import EnsembleSampler, HamiltonianChain, PcaChain
+    post = lambda x: -0.5 * float(np.sum((np.asarray(x, dtype=float) - 9.0) ** 2))
+    grad = lambda x: -(np.asarray(x, dtype=float) - 9.0)
+    lo, hi = np.array([-5.0, -5.0]), np.array([5.0, 5.0])
+    walkers = np.array([[0.0, 1.0], [1.0, -1.0], [-2.0, 2.0], [3.0, 0.5], [-1.0, -3.0], [2.0, 2.5]])
+    makers = {"EnsembleSampler": lambda: EnsembleSampler(posterior=post, starting_positions=walkers.copy(), bounds=(lo, hi), display_progress=False),
+              "PcaChain": lambda: PcaChain(posterior=post, start=np.array([0.0, 1.0]), widths=np.array([2.0, 2.0]), bounds=(lo, hi), display_progress=False),
+              "HamiltonianChain": lambda: HamiltonianChain(posterior=post, grad=grad, start=np.array([0.0, 1.0]), epsilon=0.5, bounds=(lo, hi), display_progress=False)}
+    for cname, mk in makers.items():
+        ck.case(("fresh-reload", cname))
+        try:
+            ch = mk()
+            with tempfile.TemporaryDirectory() as d, contextlib.redirect_stdout(io.StringIO()):
+                ch.save(d + "/c.npz")
+                ch2 = type(ch).load(d + "/c.npz", posterior=post, **({"grad": grad} if cname == "HamiltonianChain" else {}))
+                ch2.advance(8 if cname == "EnsembleSampler" else 40)
+            smp = np.asarray(ch2.get_sample() if cname == "EnsembleSampler" else ch2.get_sample(burn=0), dtype=float)
+        except Exception as ex:
+            ck.violation("save before the first step / load / advance raised", {"class": cname, "error": repr(ex)[:300]}, site=f"{cname}.load")
+            continue
+        worst = max(_ulps_excess(float(v), float(a), float(b)) for row in smp for v, a, b in zip(row, lo, hi))
+        if worst > 4:
+            ck.violation("limits given at construction are still in force after save (before the first step), load and advance",
+                         {"class": cname, "bounds": [lo.tolist(), hi.tolist()], "samples_outside": int(np.sum(np.any((smp < lo) | (smp > hi), axis=1))),
+                          "of": int(len(smp))}, site=f"{cname}.save:limits")
+
+
 def run(tier):
     ck = Check("C04", tier)
     ck.rule = ("maps: one case per (box, dyadic scale, offset) with 2R+W+1 points each; state machine: one case per "
@@ -506,6 +561,8 @@ def run(tier):
     from harness import c07
     c07.orbit_part(ck, tier, only_box=True, reversibility=False)
     _start_part(ck, tier)
+    _tiny_bounds_start_part(ck, tier)
+    _fresh_reload_part(ck, tier)
     from harness import repotests
     repotests.run_part(ck, "C04")          # traces of the repository's own MCMC tests, judged by TestRunTrace.tla
     return ck.finish()
